@@ -214,9 +214,35 @@ def ebr_strict_validate(trace, threads, timeout_s=3000):
     return {"accepted": False, "matched": int(m.group(2)), "lines": int(m.group(3)), "scenario": int(m.group(4)), "states": states, "strict_lines": strict_lines}
 
 
-def queue_strict_validate(trace, threads, timeout_s=3000, module="TraceQStrict"):
+def queue_strict_validate(trace, threads, timeout_s=3000, module="TraceQStrict", part_bytes=60_000_000):
     """Step-relation validation of a queue trace (TraceQStrict.tla over MSQueue.tla) or of a list trace
-    (module="TraceLStrict", over RegList.tla)."""
+    (module="TraceLStrict", over RegList.tla). A big trace (the thorough tier: about a million lines) is cut at
+    scenario boundaries (every scenario starts with a `reset` line, which resets the whole model state) and the parts
+    are validated side by side; the first rejected line is reported with its position in the whole trace."""
+    parts = split_trace(trace, part_bytes)
+    if len(parts) == 1:
+        return _queue_strict_one(trace, threads, timeout_s, module)
+    from concurrent.futures import ThreadPoolExecutor
+    offs, o = [], 0
+    for pf in parts:
+        offs.append(o)
+        with open(pf) as fh:
+            o += sum(1 for _ in fh)
+    try:
+        with ThreadPoolExecutor(max_workers=5) as ex:
+            rs = list(ex.map(lambda pf: _queue_strict_one(pf, threads, timeout_s, module), parts))
+    finally:
+        for pf in parts:
+            if pf != trace and os.path.exists(pf):
+                os.remove(pf)
+    states = sum(r["states"] for r in rs)
+    for r, off in zip(rs, offs):
+        if not r["accepted"]:
+            return {"accepted": False, "matched": off + r["matched"], "lines": o, "scenario": r["scenario"], "states": states}
+    return {"accepted": True, "lines": o, "matched": o, "scenario": None, "states": states}
+
+
+def _queue_strict_one(trace, threads, timeout_s, module):
     meta = os.path.join(WORK, "tlc", "qst_%d_%s" % (os.getpid(), hashlib.md5(trace.encode()).hexdigest()[:8]))
     shutil.rmtree(meta, ignore_errors=True)
     os.makedirs(meta, exist_ok=True)
